@@ -1,4 +1,5 @@
 import re
+from decimal import Decimal
 
 
 class _RouteFilterExhaust:
@@ -31,7 +32,8 @@ class FilterFactory:
         're':    lambda conf: (conf, None, None),
         'rex':   _rex,
         'int':   lambda conf: (r'-?\d+', int, lambda x: str(int(x))),
-        'float': lambda conf: (r'-?\d+(\.\d+)?', float, lambda x: str(float(x))),
+        # positional notation only: str(float) switches to an exponent the mask does not accept
+        'float': lambda conf: (r'-?\d+(\.\d+)?', float, lambda x: format(Decimal(repr(float(x))), 'f')),
         'path':  lambda conf: (f'.+(?={re.escape(conf)})' if conf else '.+$', None, None)
     }
     _filter_cache = {}
